@@ -384,6 +384,9 @@ class Evaluator:
                 raise Skip("idx of a non-member")
             if name == "Sum":
                 s = list(ev(A[0])); mname = A[1].value
+                if len(A) > 2:
+                    pv = ev(A[2])
+                    return sum(self.measure(mname, x, pv) for x in s)
                 return sum(self.measure(mname, x) for x in s)
             if name == "Cnt":
                 d, v = ev(A[0]), ev(A[1]); return sum(1 for k in d if d[k] == v)
@@ -402,6 +405,12 @@ class Evaluator:
                     return ev(A[0]) / ev(A[1])
                 except ZeroDivisionError:
                     raise Skip("division by zero")
+            if name == "is_nan":
+                return math.isnan(ev(A[0]))
+            if name == "np_mean":
+                import numpy as np; return float(np.mean(list(ev(A[0]))))
+            if name == "np_percentile":
+                import numpy as np; return float(np.percentile(list(ev(A[0])), ev(A[1])))
             if name == "np_log":
                 import numpy as np; return float(np.log(ev(A[0])))
             if name == "np_sqrt":
@@ -435,9 +444,12 @@ class Evaluator:
                 return getattr(base, f.attr)(*args)
         raise Skip("native: call form")
 
-    def measure(self, mname, x):
+    def measure(self, mname, x, pv=None):
         if mname in self.S.measures:
             cls, var, expr, t = self.S.measures[mname]
-            return self.ev(parse_expr(expr), {var: x}, None, False)
+            env = {var: x}
+            if mname in self.S.measure_params:
+                env[self.S.measure_params[mname][0]] = pv
+            return self.ev(parse_expr(expr), env, None, False)
         cls, fld = mname.split(".")
         return getattr(x, fld)
